@@ -70,11 +70,11 @@ func c06Open(path string, corruptPage int) (*c06Handle, error) {
 
 type c06Case struct {
 	hotJournal bool // a hot-looking journal (no RESERVED lock anywhere) appears before the call
-	name     string
-	exit     string // normal | stop | error-column | error-table | error-corrupt | panic
-	wantErr  bool
-	corrupt  int
-	run      func(h *c06Handle, atRow func())
+	name       string
+	exit       string // normal | stop | error-column | error-table | error-corrupt | panic
+	wantErr    bool
+	corrupt    int
+	run        func(h *c06Handle, atRow func())
 }
 
 // c06Peer: another PROCESS opening / reading / closing its own sqlittle handle.
@@ -170,43 +170,49 @@ func c06LockStates(run *hx.Run, writer *hx.Oracle, path string) {
 						run.Violation("C06/lock-state/open/"+state, "Open failed: "+err.Error(), nil)
 						continue
 					}
-					n := 0
-					var oerr error
-					switch opname {
-					case "Select":
-						oerr = db.Select("t", func(sqlittle.Row) { n++ }, "id")
-					case "SelectRowid":
-						var r sqlittle.Row
-						r, oerr = db.SelectRowid("t", 5, "id")
-						if r != nil {
-							n++
+					// twice on the same handle: a refusal must not leave state behind that lets the next call in
+					for attempt := 1; attempt <= 2; attempt++ {
+						n := 0
+						var oerr error
+						switch opname {
+						case "Select":
+							oerr = db.Select("t", func(sqlittle.Row) { n++ }, "id")
+						case "SelectRowid":
+							var r sqlittle.Row
+							r, oerr = db.SelectRowid("t", 5, "id")
+							if r != nil {
+								n++
+							}
+						default:
+							var cs []string
+							cs, oerr = db.Columns("t")
+							n = len(cs)
 						}
-					default:
-						var cs []string
-						cs, oerr = db.Columns("t")
-						n = len(cs)
-					}
-					run.Eval(1)
-					run.Distinct("lockstate/" + state + "/" + opname)
-					run.See("foreign_lock_state", state)
-					key := fmt.Sprintf("C06/lock-state/%s/%s", state, opname)
-					if wantFail && (oerr == nil || n > 0) {
-						run.Violation(key+"/read-admitted", fmt.Sprintf("another process holds [%s]: %s returned err=%v with %d rows; a reader must not enter", state, opname, oerr, n), nil)
-					}
-					if !wantFail && oerr != nil {
-						run.Violation(key+"/read-refused", fmt.Sprintf("another process holds only [%s]: %s failed: %v", state, opname, oerr), nil)
-					}
-					// whatever the outcome: nothing of ours may stay locked
-					var mine []hx.ProcLock
-					if locks, err := hx.FileLocks(path); err == nil {
-						for _, l := range locks {
-							if l.Pid == os.Getpid() {
-								mine = append(mine, l)
+						run.Eval(1)
+						run.Distinct(fmt.Sprintf("lockstate/%s/%s/%d", state, opname, attempt))
+						run.See("foreign_lock_state", state)
+						key := fmt.Sprintf("C06/lock-state/%s/%s", state, opname)
+						if attempt == 2 {
+							key += "/second-call-on-handle"
+						}
+						if wantFail && (oerr == nil || n > 0) {
+							run.Violation(key+"/read-admitted", fmt.Sprintf("another process holds [%s]: %s returned err=%v with %d rows; a reader must not enter", state, opname, oerr, n), nil)
+						}
+						if !wantFail && oerr != nil {
+							run.Violation(key+"/read-refused", fmt.Sprintf("another process holds only [%s]: %s failed: %v", state, opname, oerr), nil)
+						}
+						// whatever the outcome: nothing of ours may stay locked
+						var mine []hx.ProcLock
+						if locks, err := hx.FileLocks(path); err == nil {
+							for _, l := range locks {
+								if l.Pid == os.Getpid() {
+									mine = append(mine, l)
+								}
 							}
 						}
-					}
-					if len(mine) > 0 {
-						run.Violation(key+"/lock-left-behind", fmt.Sprintf("another process holds [%s]: after %s returned (err=%v) this process still holds %+v", state, opname, oerr, mine), nil)
+						if len(mine) > 0 {
+							run.Violation(key+"/lock-left-behind", fmt.Sprintf("another process holds [%s]: after %s returned (err=%v) this process still holds %+v", state, opname, oerr, mine), nil)
+						}
 					}
 					db.Close()
 				}
@@ -289,6 +295,23 @@ func c06File(run *hx.Run, probe, writer *hx.Oracle, path string, ps int) {
 		}},
 		{name: "IndexedSelectEq", exit: "normal", run: func(h *c06Handle, at func()) {
 			h.hi.IndexedSelectEq("t", "ix_t_v", sqlittle.Key{int64(919)}, func(sqlittle.Row) { at() }, cols...)
+		}},
+		{name: "IndexedSelectEq", exit: "panic", run: func(h *c06Handle, at func()) {
+			h.hi.IndexedSelectEq("t", "ix_t_v", sqlittle.Key{int64(919)}, func(sqlittle.Row) { at(); panic(errStopPanic) }, cols...)
+		}},
+		{name: "PKSelect", exit: "panic", run: func(h *c06Handle, at func()) {
+			h.hi.PKSelect("t", sqlittle.Key{int64(7)}, func(sqlittle.Row) { at(); panic(errStopPanic) }, cols...)
+		}},
+		{name: "SelectDone", exit: "panic", run: func(h *c06Handle, at func()) {
+			n := 0
+			h.hi.SelectDone("t", func(sqlittle.Row) bool {
+				at()
+				n++
+				if n == 4 {
+					panic(errStopPanic)
+				}
+				return false
+			}, cols...)
 		}},
 		{name: "IndexedSelectEq", exit: "error-key", wantErr: true, run: func(h *c06Handle, at func()) {
 			h.hi.IndexedSelectEq("t", "ix_t_v", sqlittle.Key{struct{}{}}, func(sqlittle.Row) { at() }, cols...)
@@ -434,59 +457,72 @@ func c06File(run *hx.Run, probe, writer *hx.Oracle, path string, ps int) {
 				}
 				observe(fmt.Sprintf("trace[%d]=%s%d", idx, ev.Kind, ev.Page))
 			}
-			nrow := 0
-			atRow := func() {
-				nrow++
-				// every callback for short results, a stride for long ones
-				if nrow <= 12 || nrow%17 == 0 {
-					observe(fmt.Sprintf("callback[%d]", nrow))
-				}
-			}
-			if c.hotJournal {
-				// a crashed writer's journal: valid header, one sector, nobody holds RESERVED
-				// (zero records and the true size in pages: when SQLite itself rolls it back later, nothing changes)
-				j := make([]byte, 1024)
-				npages := 0
-				if fi, err := os.Stat(path); err == nil {
-					npages = int(fi.Size()) / ps
-				}
-				copy(j, []byte{0xd9, 0xd5, 0x05, 0xf9, 0x20, 0xa1, 0x63, 0xd7, 0, 0, 0, 0, 1, 2, 3, 4, byte(npages >> 24), byte(npages >> 16), byte(npages >> 8), byte(npages), 0, 0, 2, 0})
-				j[24], j[25], j[26], j[27] = byte(ps>>24), byte(ps>>16), byte(ps>>8), byte(ps)
-				os.WriteFile(path+"-journal", j, 0o644)
-			}
-			var pm string
-			func() {
-				defer func() {
-					if r := recover(); r != nil {
-						if r == errStopPanic {
-							pm = "deliberate"
-						} else {
-							pm = fmt.Sprint(r)
-						}
+			traceEvents := 0
+			// the same operation twice on the same handle: the second call has to take the lock again
+			// (state left by the first call - a reused lock structure, a nesting counter - must not skip it)
+			for pass := 1; pass <= 2; pass++ {
+				if pass == 2 {
+					if inj != "none" {
+						break
 					}
+					base += "/second-call-on-handle"
+					injected = false
+				}
+				nrow := 0
+				atRow := func() {
+					nrow++
+					// every callback for short results, a stride for long ones
+					if nrow <= 12 || nrow%17 == 0 {
+						observe(fmt.Sprintf("callback[%d]", nrow))
+					}
+				}
+				if c.hotJournal {
+					// a crashed writer's journal: valid header, one sector, nobody holds RESERVED
+					// (zero records and the true size in pages: when SQLite itself rolls it back later, nothing changes)
+					j := make([]byte, 1024)
+					npages := 0
+					if fi, err := os.Stat(path); err == nil {
+						npages = int(fi.Size()) / ps
+					}
+					copy(j, []byte{0xd9, 0xd5, 0x05, 0xf9, 0x20, 0xa1, 0x63, 0xd7, 0, 0, 0, 0, 1, 2, 3, 4, byte(npages >> 24), byte(npages >> 16), byte(npages >> 8), byte(npages), 0, 0, 2, 0})
+					j[24], j[25], j[26], j[27] = byte(ps>>24), byte(ps>>16), byte(ps>>8), byte(ps)
+					os.WriteFile(path+"-journal", j, 0o644)
+				}
+				var pm string
+				func() {
+					defer func() {
+						if r := recover(); r != nil {
+							if r == errStopPanic {
+								pm = "deliberate"
+							} else {
+								pm = fmt.Sprint(r)
+							}
+						}
+					}()
+					c.run(h, atRow)
 				}()
-				c.run(h, atRow)
-			}()
-			if pm != "" && pm != "deliberate" {
-				run.Violation(base+"/panic", "unexpected panic: "+pm, nil)
+				if pm != "" && pm != "deliberate" {
+					run.Violation(base+"/panic", "unexpected panic: "+pm, nil)
+				}
+				if c.exit == "panic" && pm != "deliberate" {
+					run.Inconclusive("the deliberate callback panic did not happen")
+				}
+				if c.hotJournal {
+					os.Remove(path + "-journal")
+				}
+				ev := h.tp.Take()
+				traceEvents += len(ev)
+				if msg := hx.CheckTrace(ev); msg != "" {
+					run.Violation(base+"/trace", fmt.Sprintf("%s (%s): %s", c.name, c.exit, msg), hx.M{"events": len(ev)})
+				}
+				if c.corrupt > 0 && h.corr.hits == 0 {
+					run.Inconclusive("the corrupted page was never read")
+				}
+				// after return
+				inside = false
+				observe("after-return")
 			}
-			if c.exit == "panic" && pm != "deliberate" {
-				run.Inconclusive("the deliberate callback panic did not happen")
-			}
-			if c.hotJournal {
-				os.Remove(path + "-journal")
-			}
-			ev := h.tp.Take()
 			h.tp.Hook = nil
-			if msg := hx.CheckTrace(ev); msg != "" {
-				run.Violation(base+"/trace", fmt.Sprintf("%s (%s): %s", c.name, c.exit, msg), hx.M{"events": len(ev)})
-			}
-			if c.corrupt > 0 && h.corr.hits == 0 {
-				run.Inconclusive("the corrupted page was never read")
-			}
-			// after return
-			inside = false
-			observe("after-return")
 			run.See("exit_path", c.name+"/"+c.exit)
 			run.Count("stops", stops)
 			if second != nil {
@@ -494,7 +530,7 @@ func c06File(run *hx.Run, probe, writer *hx.Oracle, path string, ps int) {
 			}
 			h.low.Close()
 			if inj == "none" && stops > 4 {
-				run.Sample(hx.M{"op": c.name, "exit": c.exit, "page_size": ps, "trace_events": len(ev), "stops_observed": stops})
+				run.Sample(hx.M{"op": c.name, "exit": c.exit, "page_size": ps, "trace_events": traceEvents, "stops_observed": stops})
 			}
 		}
 	}
